@@ -38,13 +38,14 @@ class Abort(Exception):
 
 
 class Storage:
-    __slots__ = ("id", "data", "name", "is_arg")
+    __slots__ = ("id", "data", "name", "is_arg", "btype")
 
     def __init__(self, id_, size, name, fill=POISON, is_arg=False):
         self.id = id_
         self.data = [fill] * size
         self.name = name
         self.is_arg = is_arg
+        self.btype = None  # declared precision ("F32", "INT8", ...), set where the storage is declared
 
 
 class View:
@@ -122,7 +123,7 @@ def fits(v, typ):
     """is the exact value v representable in C type of `typ` (basetype)?"""
     if v is POISON:
         return True
-    tn = type(typ).__name__
+    tn = typ if isinstance(typ, str) else type(typ).__name__
     if tn in _INT_RANGES:
         lo, hi = _INT_RANGES[tn]
         return isinstance(v, int) and lo <= v <= hi
@@ -144,6 +145,60 @@ def fits(v, typ):
         return False
     # exponent range (coarse): keep magnitudes moderate
     return abs(v) < 2**60 and (d.bit_length() < 60)
+
+
+def btype_name(t):
+    """declared precision of a LoopIR type as a name ("F32", "INT8", ...; R counts as F32, the
+    backend's default) or None for control types"""
+    try:
+        b = t.basetype()
+    except Exception:
+        return None
+    n = type(b).__name__
+    if n == "Num":
+        return "F32"
+    return n if (n in _INT_RANGES or n in _EXACT_LIMITS) else None
+
+
+def convert(val, src, dst):
+    """value of the C cast `(dst)(val)` for an exact `val` of precision `src`;
+    returns (value, exact): exact=False when the cast is not modelled (out of range,
+    half precision, rounding of an integer) -- the input then leaves the exact class."""
+    import struct
+
+    if val is POISON or src is None or dst is None or src == dst:
+        return val, True
+    if dst in _INT_RANGES:
+        lo, hi = _INT_RANGES[dst]
+        if src in _INT_RANGES:
+            return val, (lo <= val <= hi)
+        t = int(val)  # C truncates toward zero
+        return (t, True) if lo <= t <= hi else (val, False)
+    if dst not in ("F32", "F64"):
+        return val, False
+    if src in _INT_RANGES:
+        return val, True  # the caller's fits() check decides representability
+    if src not in ("F32", "F64"):
+        return val, False
+    bits = _EXACT_LIMITS[dst]
+    if isinstance(val, int) and abs(val) < (1 << bits):
+        return val, True
+    if dst == "F64":
+        return val, True  # widening
+    # F64 -> F32: round to nearest even (the default rounding mode)
+    try:
+        f = float(val)
+    except OverflowError:
+        return val, False
+    if Fraction(f) != val:
+        return val, False  # val was not a double to begin with
+    try:
+        r = struct.unpack("f", struct.pack("f", f))[0]
+    except OverflowError:
+        return val, False
+    if r != r or r in (float("inf"), float("-inf")):
+        return val, False
+    return num(r), True
 
 
 def _libm(fn):
@@ -205,6 +260,7 @@ class RunResult:
         self.par_iters = 0
         self.steps = 0
         self.exact_ok = True
+        self.casts = 0  # precision casts modelled on assignment
         self.poison_arith = False  # uninitialised data entered arithmetic
         self.aborted = None
         self.range_obs = None
@@ -259,6 +315,8 @@ class Interp:
         try:
             for a, v in zip(proc.args, argvals):
                 env[a.name] = v
+                if type(v) is View and v.st.btype is None:
+                    v.st.btype = btype_name(a.type)
             for p in proc.preds:
                 if self.ev(p, env) is not True:
                     self.event("precondition", "root assertion false", p)
@@ -330,9 +388,10 @@ class Interp:
         if self.parstack:
             self._par_note(2 if reduce else 1, (st.id, off))
         if self.want_exact and typ is not None:
+            typ = st.btype or typ  # the declaration decides, not the node's annotation
             if not fits(val, typ):
                 self.res.exact_ok = False
-            elif self._nonint_const and type(typ).__name__ in _INT_RANGES:
+            elif self._nonint_const and (typ if isinstance(typ, str) else type(typ).__name__) in _INT_RANGES:
                 # a fractional literal is cast to the integer type in C
                 self.res.exact_ok = False
         st.data[off] = val
@@ -496,6 +555,34 @@ class Interp:
         except Exception:
             raise Abort("undefined_extern")
 
+    def prec(self, e, env):
+        """static precision of a numeric expression from the *declarations* of what it reads
+        (not from the type annotations of the nodes, which scheduling may leave stale);
+        None for literals (they adopt the precision of their context)"""
+        c = type(e)
+        if c is _S.Read:
+            v = env.get(e.name)
+            return v.st.btype if type(v) is View else None
+        if c is _S.BinOp:
+            return self.prec(e.lhs, env) or self.prec(e.rhs, env)
+        if c is _S.USub:
+            return self.prec(e.arg, env)
+        if c is _S.Extern:
+            for a in e.args:
+                p = self.prec(a, env)
+                if p is not None:
+                    return p
+            return None
+        if c is _S.ReadConfig:
+            try:
+                return btype_name(e.config.lookup_type(e.field))
+            except Exception:
+                return None
+        if c is _S.WindowExpr:
+            v = env.get(e.name)
+            return v.st.btype if type(v) is View else None
+        return None
+
     def window(self, e, env):
         try:
             base = env[e.name]
@@ -562,6 +649,16 @@ class Interp:
                 if rhs.shape:
                     self.event("type", "tensor-valued right-hand side", s)
                 rhs = self.load(rhs, (), s)
+            if self.want_exact and rhs is not POISON:
+                # precision cast on assignment / reduction: `dst (+)= (T)(rhs)` when the
+                # precision of the right-hand side differs from the destination's
+                dt = v.st.btype
+                rt = self.prec(s.rhs, env)
+                if dt is not None and rt is not None and dt != rt:
+                    rhs, ok = convert(rhs, rt, dt)
+                    self.res.casts += 1
+                    if not ok:
+                        self.res.exact_ok = False
             self.store(v, idx, rhs, s, reduce=(c is _S.Reduce), typ=s.type)
         elif c is _S.For:
             lo = self.ev(s.lo, env)
@@ -656,6 +753,7 @@ class Interp:
             raise Abort("budget")
         self.nalloc += 1
         st = Storage(self.nalloc, size, str(s.name))
+        st.btype = btype_name(t)
         env[s.name] = View(st, 0, dense_strides(shape), shape)
         if self.res.trace is not None:
             self.res.trace.append(("A", st.id, tuple(shape)))
